@@ -294,3 +294,37 @@ def compare(c, o, m):
 def nontrivial(c, o):
     fs = c["faces"]
     return len(fs) >= 2 and any(set(fs[0]) & set(f) for f in fs[1:])
+
+
+def translate(ctx):
+    """by ast from geometry.py: the face columns `faces_to_edges` lists as edge end points, and how it tiles the face
+    index (`edges_face`)"""
+    import ast
+    import os
+    import common as _c
+    tree = ast.parse(open(os.path.join(_c.REPO, "trimesh/geometry.py")).read())
+    fn = next((f for f in tree.body if isinstance(f, ast.FunctionDef) and f.name == "faces_to_edges"), None)
+    if fn is None:
+        raise _c.Broken("translate", "geometry.py: faces_to_edges not found")
+    cols, tile = None, None
+    for st in ast.walk(fn):
+        if isinstance(st, ast.Assign) and ast.unparse(st.targets[0]) == "edges":
+            s_ = ast.unparse(st.value)
+            if s_.startswith("faces[:, [") and s_.endswith("]].reshape((-1, 2))"):
+                cols = [int(x) for x in s_[len("faces[:, ["):-len("]].reshape((-1, 2))")].split(",")]
+        if isinstance(st, ast.Assign) and ast.unparse(st.targets[0]) == "face_index":
+            tile = ast.unparse(st.value)
+    if cols is None:
+        raise _c.Broken("translate", "geometry.faces_to_edges: edge column list not found")
+    L = ["-- GENERATED by harness/props/C05.py from /repo/trimesh/geometry.py (ast) -- do not edit",
+         "namespace TV.Generated.C05",
+         "/-- `faces_to_edges`: the face columns listed as edge end points, pair by pair -/",
+         "def edgeColumns : List Nat := [" + ", ".join(str(c_) for c_ in cols) + "]",
+         "/-- how the face index of every edge is produced -/",
+         'def faceIndexExpr : String := "' + (tile or "missing").replace('"', "'") + '"',
+         "end TV.Generated.C05"]
+    return {"C05Table.lean": "\n".join(L) + "\n"}
+
+
+def generated_obligations():
+    return 1
